@@ -1,6 +1,7 @@
 # Copyright (c) Microsoft Corporation. All rights reserved.
 # Licensed under the MIT License.
 
+import copy
 import logging
 import pathlib
 from typing import Dict
@@ -19,6 +20,9 @@ LOGGER = logging.getLogger("dotnet")
 
 def generate_from_spec(spec: model.LSPModel, output_dir: str, _test_dir: str) -> None:
     """Generate the code for the given spec."""
+    # The plugin names literals, adds and changes declarations while it works:
+    # on a copy, so that the caller's model stays as loaded for the next plugin.
+    spec = copy.deepcopy(spec)
     output_path = pathlib.Path(output_dir, PACKAGE_DIR_NAME)
     if not output_path.exists():
         output_path.mkdir(parents=True, exist_ok=True)
